@@ -40,7 +40,7 @@ def run(chk: Check) -> int:
             break
         rng = chk.rng("case", k)
         spec = I.random_spec(rng, faults=rng.random() < 0.35, big=not chk.quick)
-        col.add(I.run_case(spec, I.RandomSched(rng)), f"seed{chk.seed}/{k}")
+        col.add(I.safe_run(col, spec, I.RandomSched(rng), f"seed{chk.seed}/{k}"), f"seed{chk.seed}/{k}")
     # --- exhaustive small scope: every schedule (every ordered sub-list of the futures in flight
     #     at every wait, cancellation at every wait, every futures-were-already-running choice)
     exh, truncated = {}, 0
@@ -60,11 +60,11 @@ def run(chk: Check) -> int:
         cnt = 0
         if col.enough():
             break
-        for rec in I.enumerate_scheds(lambda s, spec=spec: I.run_case(spec, s), orders=orders, cancel=cancel, limit=LIMIT):
+        for rec in I.enumerate_scheds(lambda s, spec=spec: I.safe_run(col, spec, s, "exhaustive"), orders=orders, cancel=cancel, limit=LIMIT):
             cnt += 1
             # very large configurations: the oracle sees every schedule, Coq every third beyond the first 8000
             col.add(rec, f"exhaustive {kind} ntasks={nt} evals<={T} goal={goal} #{cnt}", coq=(cnt <= 8000 or cnt % 3 == 0))
-            if rec.machinery or col.enough():
+            if rec is None or rec.machinery or col.enough():
                 break
         exh[f"{kind} ntasks={nt} evals<={T} goal={goal} cancel={cancel}"] = cnt
         truncated += cnt >= LIMIT
